@@ -2,7 +2,7 @@
 Require Extraction.
 Require Import ExtrOcamlBasic.
 From Coq Require Import ZArith List Bool.
-From V Require Import base.Cal gen.RdTables rd.RdBase rd.RdModel rd.RdSpec.
+From V Require Import base.Cal gen.RdTables rd.RdBase rd.RdModel rd.RdSpec rd.RdAwareModel.
 Import ListNotations.
 Open Scope Z_scope.
 
@@ -127,6 +127,22 @@ Definition diff_report (dt1 dt2 : pydt) (d : rd) : list Z :=
    e_b (match spec_add d c2 with Some x => pydt_eqb x c1 | None => false end);
    e_b (months_maximal c1 c2 d)].
 
+(* utcoffset table: count k, then k pairs (wall position, offset) *)
+Fixpoint d_pairs (k : nat) (l : list Z) : option (list (Z * Z) * list Z) :=
+  match k with
+  | O => Some ([], l)
+  | S k' =>
+      match l with
+      | a :: b :: r => match d_pairs k' r with Some (t, r') => Some ((a, b) :: t, r') | None => None end
+      | _ => None
+      end
+  end.
+Definition d_offtab : dec (list (Z * Z)) := fun l =>
+  match l with
+  | k :: r => if (0 <=? k) && (k <=? 64) then d_pairs (Z.to_nat k) r else None
+  | [] => None
+  end.
+
 Definition dispatch (n : Z) (args : list Z) : list Z :=
   match n with
   (* model *)
@@ -155,6 +171,7 @@ Definition dispatch (n : Z) (args : list Z) : list Z :=
   | 25 => with2 d_z d_z args (fun y n => e_optv (fun '(a, b, c) => [a; b; c]) (spec_yearday_date y n))
   | 26 => with2 d_z d_z args (fun y n => e_optv (fun '(a, b, c) => [a; b; c]) (spec_nlyearday_date y n))
   | 27 => with2 d_rd d_dt args (fun d o => e_optv e_dt (spec_add_raw d o))
+  | 28 => with3 d_offtab d_dt d_dt args (fun t a b => e_res e_rd (mk_diff_aware (off_lookup t) a b))
   | _ => bad
   end.
 
